@@ -18,6 +18,7 @@
 """
 PROPERTIES = ("C05", "C06")
 
+import hashlib
 import json
 import math
 import os
@@ -777,7 +778,7 @@ def _replay_job_inner(job):
         res["rejected"] += out["status"] == "Rejected"
         res["merged"] += bool(out["merged"])
         if out["status"] == "ok":
-            res["nontrivial"].add(hash(tlaval.freeze(cfg)))
+            res["nontrivial"].add(hashlib.md5(repr(tlaval.freeze(cfg)).encode()).hexdigest())  # hash(-1) == hash(-2)
         if len(res["samples"]) < 1 and out["status"] == "ok" and (rng.random() < 0.05 or b is blocks[-1]):
             res["samples"].append({"cfg": cfg, "tlc_expected": {k: out[k] for k in ("field", "var", "meanfield", "gmean", "det", "dd")}})
     res["calls"] = col.calls
@@ -834,17 +835,17 @@ def aux_numeric(rng, count):
             mean = 0.0
         else:
             K, R, z, mean = C, kk, val - 0.3, 0.3
-        if np.linalg.cond(K) > 1e8:
+        if np.linalg.cond(K) > 1e6:
             continue
         X = np.linalg.solve(K, R)
         fe = z @ X + mean
         ve = np.maximum(model.sill - np.sum(X * R, axis=0), 0)
-        dmax = float(max(np.max(np.abs(fe - f)), np.max(np.abs(ve - v))))
+        dmax = float(max(np.max(np.abs(fe - f) / np.maximum(1.0, np.abs(fe))), np.max(np.abs(ve - v))))
         worst = max(worst, dmax)
         bad += dmax > 1e-7
         done += 1
     return {"label": "aux_numeric (numpy.linalg.solve on the documented layout with the implementation's own covariance; "
-                     "never decides a verdict)", "cases": done, "max_abs_difference": worst, "above_1e-7": int(bad)}
+                     "never decides a verdict)", "cases": done, "condition_number_below": 1e6, "max_relative_difference": worst, "above_1e-7": int(bad)}
 
 
 # ---------------------------------------------------------------------------
@@ -963,5 +964,5 @@ def run(pid, tier, seed, replay=None):
              "measurement error) with TLC-computed rational results; each is built as the real kriging object and called in "
              "several modes (inversion routines, chunk sizes, permuted targets/conditions, structured, return_var, only_mean, "
              "get_mean, LogNormal); evaluations = compared real calls; distinct non-trivial = distinct non-rejected "
-             "configurations (hash of the configuration record)",
+             "configurations (md5 of the configuration record)",
         exhaustive=False)
